@@ -84,6 +84,9 @@ where
         Ok(Err(e)) => tag_err(e, &mut out),
         Err(()) => out.push(2),
     }
+    // initialisers: announced INIT_BYTES vs bytes written, for every initializer kind of the shape
+    out.push(-790);
+    T::init_probe(&mut out);
     out
 }
 
